@@ -318,4 +318,37 @@ def replay(record):
                 probs.append(f"result is not the {it}-step orthogonal-iteration update of the estimate (up to column order and signs) for A={Ac.tolist()} estimate={E.tolist()}")
             if probs:
                 break
+            # the stopping rule: QR steps continue exactly while the relative change |Q_prev - Q|_F / |Q_prev|_F exceeds the tolerance (documented
+            # iteration re-run independently with the same LAPACK routine; the number of QR factorisations is observed by wrapping torch.linalg.qr)
+            for tol_ in (0.5, 0.1, 1e-2, 1e-4):
+                mi = 25
+                P, exp_steps = E, 0
+                while exp_steps < mi:
+                    Pn = torch.linalg.qr(Ac @ P).Q
+                    exp_steps += 1
+                    rel = float((P - Pn).norm() / P.norm())
+                    P = Pn
+                    if abs(rel - tol_) < 1e-9 * (1 + tol_):
+                        exp_steps = None  # borderline in floating point: not decidable by a replay
+                        break
+                    if rel <= tol_:
+                        break
+                if exp_steps is None:
+                    continue
+                calls, real_qr = [0], torch.linalg.qr
+
+                def counting_qr(*a, **k):
+                    calls[0] += 1
+                    return real_qr(*a, **k)
+
+                torch.linalg.qr = counting_qr
+                try:
+                    M.matrix_eigenvectors(Ac, E, QRConfig(max_iterations=mi, tolerance=tol_))
+                finally:
+                    torch.linalg.qr = real_qr
+                if calls[0] != exp_steps:
+                    probs.append(f"QRConfig(max_iterations={mi}, tolerance={tol_}): {calls[0]} QR steps run, the documented stopping rule gives {exp_steps} for A={Ac.tolist()} estimate={E.tolist()}")
+                    break
+            if probs:
+                break
     return bool(probs), f"mode={mode} n={n}: {probs or 'clauses hold'}"
